@@ -39,6 +39,9 @@ pub enum EndState {
     Budget,
     /// a logical thread panicked (message given)
     Panicked { tid: usize, msg: String },
+    /// the running thread made no scheduling point for 8 s of wall-clock time: it is blocked inside a primitive the harness does not
+    /// instrument (e.g. a blocking crossbeam send) that only another thread could end -- and the others are waiting for their turn
+    Blocked { tid: usize },
 }
 
 /// panic payload used to unwind logical threads when a run is aborted
@@ -65,6 +68,7 @@ struct Inner {
     current:      usize,           // usize::MAX: nobody (before start / after the end)
     step:         u32,
     max_steps:    u32,
+    deadline:     std::time::Instant,
     write_epoch:  u64,
     last_fail:    Vec<Option<(usize, u64)>>,
     fail_count:   Vec<u32>,
@@ -186,6 +190,8 @@ thread_local! {
 
 static QUIET_HOOK: Once = Once::new();
 pub static VERBOSE_PANICS: AtomicBool = AtomicBool::new(false);
+/// runs that ended `Blocked` in this process (each costs seconds of wall-clock time and leaves a thread behind)
+pub static BLOCKED_RUNS: std::sync::atomic::AtomicU32 = std::sync::atomic::AtomicU32::new(0);
 /// debugging aid (RMV_TRACE=1 with `replay`): prints every scheduling point
 pub static TRACE_OPS: AtomicBool = AtomicBool::new(false);
 static TRACE_ADDRS: Mutex<Vec<usize>> = Mutex::new(Vec::new());
@@ -274,6 +280,7 @@ impl Sched {
                 current: usize::MAX,
                 step: 0,
                 max_steps,
+                deadline: std::time::Instant::now() + std::time::Duration::from_secs(15),
                 write_epoch: 0,
                 last_fail: vec![None; n],
                 fail_count: vec![0; n],
@@ -375,7 +382,8 @@ impl Sched {
         g.steps_in_op[me] += 1;
         if !(0..g.in_op.len()).any(|t| t != me && g.in_op[t]) { g.solo_steps[me] += 1; }
         for t in 0..g.yielding.len() { if t != me { g.yielding[t] = false; } }
-        if g.step > g.max_steps {
+        if g.step > g.max_steps || (g.step % 64 == 0 && std::time::Instant::now() > g.deadline) {
+            // (the wall-clock part catches un-instrumented waiting inside the library -- `thread::sleep` retry loops -- that make a run crawl)
             self.abort_now(&mut g, EndState::Budget);
             drop(g);
             panic::panic_any(AbortToken);
@@ -558,11 +566,26 @@ impl Sched {
             g.current = first;
             self.cvs[first].notify_one();
             // wait for the end
+            let mut last = (g.step, std::time::Instant::now());
+            let mut blocked: Option<usize> = None;
             loop {
                 let all_exited = g.exited.iter().all(|&e| e);
                 if all_exited { break; }
                 g = self.ctl.wait_timeout(g, std::time::Duration::from_millis(200)).unwrap().0;
+                if g.step != last.0 { last = (g.step, std::time::Instant::now()); }
+                else if blocked.is_none() && g.abort.is_none() && g.current < self.n && last.1.elapsed() > std::time::Duration::from_secs(8) {
+                    let tid = g.current;
+                    blocked = Some(tid);
+                    BLOCKED_RUNS.fetch_add(1, Ordering::Relaxed);
+                    self.abort_now(&mut g, EndState::Blocked { tid });
+                    last = (g.step, std::time::Instant::now());
+                }
+                else if let Some(tid) = blocked {
+                    // everybody else unwinds; the blocked thread cannot: it is left behind (detached)
+                    if (0..self.n).all(|t| t == tid || g.exited[t]) || last.1.elapsed() > std::time::Duration::from_secs(5) { break; }
+                }
             }
+            if let Some(tid) = blocked { let h = handles.remove(tid); std::mem::drop(h); }
         }
         for h in handles { let _ = h.join(); }
         let g = self.m.lock().unwrap();
